@@ -27,7 +27,7 @@ MANIFEST = {
     'technique': 'deductive: VCs from the real AST of Orientations._fractional_directions / __post_init__ / normalize / symmetrize / transform '
                  'and utils.fft_autocorrelation (length obligations); z3/cvc5; native replay; tetrahedral clusters in random cells as stand-in',
 }
-UNITS = ['unit_directions', 'unit_normalize', 'unit_symmetrize', 'unit_transform', 'unit_autocorr']
+UNITS = ['unit_directions', 'unit_normalize', 'unit_symmetrize', 'unit_transform', 'unit_autocorr', 'unit_plumbing']
 BOUNDED = ['bounded_orientations', 'bounded_purity']
 META = {'clauses': {'C18.wrap': 'P', 'C18.match': 'B', 'C18.norm': 'P', 'C18.sym': 'P + A (orthogonal point-group matrices)', 'C18.lin': 'P', 'C18.sph': 'B',
                     'C18.ac.pad': 'P (sufficient padding) / known finding (inverse length)', 'C18.ac.norm': 'known finding region'},
@@ -402,3 +402,11 @@ from verif.native.purity import make_bounded as _make_purity  # noqa: E402
 from verif.props.purity_reg import REG as _PURITY_REG  # noqa: E402
 PURITY = _PURITY_REG['C18']
 bounded_purity = _make_purity('C18', PURITY)
+
+
+# plumbing around the anchored functions: forwarding contracts of the public wrappers, no state shared between calls or objects
+from verif.props import plumbing as _plumbing  # noqa: E402
+
+
+def unit_plumbing(tier):
+    return _plumbing.unit_plumbing(PROPERTY)
